@@ -43,7 +43,8 @@ def x_coeffs(nums, dens):
 def x_lseg(s):
     inv = "" if s["inv"] is None else f"<COMPU-INVERSE-VALUE><V>{s['inv']}</V></COMPU-INVERSE-VALUE>"
     return ("<COMPU-SCALE>" + x_limit("LOWER-LIMIT", s["lo"]) + x_limit("UPPER-LIMIT", s["hi"]) + inv +
-            x_coeffs([s["off"], s["num"]], [s["den"]]) + "</COMPU-SCALE>")
+            # (a denominator of 1 is left out for every other offset: the default must behave like an explicit 1)
+            x_coeffs([s["off"], s["num"]], [] if s["den"] == 1 and isinstance(s["off"], int) and s["off"] % 2 == 0 else [s["den"]]) + "</COMPU-SCALE>")
 
 
 def x_rseg(s):
